@@ -27,10 +27,12 @@ SPEC = dict(
         "specification axioms (PrimInt63.*, Uint63.*_spec) of the standard library",
         "norm_roundtrip only: Coq's primitive floats and integers (PrimFloat.*, PrimInt63.*) and the standard library's "
         "specification axiom FloatAxioms.Prim2SF_SF2Prim",
-        "float_weak_mono_partial: the Reals axioms above (Flocq's generic rounding is a function on R); it is stated over "
-        "rounded real arithmetic, the bridge to PrimFloat terms is not proved",
+        "float_weak_mono, score_is_rounded_real (PrimFloat <-> rounded reals through Flocq's IEEE754.PrimFloat/BinarySingleNaN): "
+        "the Reals axioms, Coq's primitive floats and integers (PrimFloat.*, PrimInt63.*) with the standard library's "
+        "specification axioms FloatAxioms.{add,sub,mul,div,abs,eqb,ltb,leb,of_uint63}_spec, Prim2SF_valid, SF2Prim_Prim2SF, "
+        "Prim2SF_SF2Prim and Uint63.{add,sub,ltb,leb,lsl,lsr,lor,eqb_*,of_to_Z}_spec",
         "explain_root_is_score is stated for every arithmetic (record ops), so it covers binary64 without any float axiom; "
-        "the binary64 instance itself (Coq primitive floats evaluated by vm_compute) is tied to Go's float64 on amd64 "
+        "Coq's primitive floats are tied to IEEE-754 binary64 by the FloatAxioms specifications (used by float_weak_mono) and to Go's float64 on amd64 "
         "(round to nearest even, no fused multiply-add) only by the bit-exact correspondence cases",
         "math.Log is not modelled: per-case table; the strictness classification of the idf law assumes it is monotone and "
         "accurate to a few ulp",
